@@ -367,4 +367,201 @@ def run (h : SHeap) : List Op → List StepObs
     let (h', out, calls) := step h op
     ⟨out, calls, observe h'⟩ :: run h' ops
 
+/-! ### the arguments object, ES5 §10.6 (non-strict function, all indices mapped at creation)
+
+  The stored value of a mapped index is the creation-time argument (step 11.b); while mapped,
+  [[Get]] / [[GetOwnProperty]] read the parameter binding.  [[DefineOwnProperty]] step 5.b.ii
+  (unmapping by `writable:false`) is taken with the correction of ES2015 §9.4.4.2 step 4: a
+  descriptor without [[Value]] first receives the mapped value, so that the property keeps the
+  value it showed while mapped (ES5.1's literal text would expose the stale creation-time value;
+  no implementation does that). -/
+
+def argInit (v0 v1 : Val) : ArgState SProp :=
+  { o := ⟨none, true,
+      [(15, .data v0 true true true), (16, .data v1 true true true),
+       (5, .data 5 true false true), (17, .data 997 true false true)]⟩
+    map := [true, true]
+    env := [v0, v1] }
+
+/-- §10.6 [[GetOwnProperty]] -/
+def argGetOwn (s : ArgState SProp) (n : Name) : Option SProp :=
+  match alookup n s.o.props with
+  | none => none
+  | some p =>
+    match argMapped s n, p with
+    | some v, .data _ w e c => some (.data v w e c)
+    | _, _ => some p
+
+/-- §10.6 [[Get]] -/
+def argGet (s : ArgState SProp) (n : Name) : Val :=
+  match argMapped s n with
+  | some v => v
+  | none =>
+    match alookup n s.o.props with
+    | some (.data v _ _ _) => v
+    | some (.acc (some k) _ _ _) => getterResult k 0
+    | _ => 0
+
+/-- §10.6 [[DefineOwnProperty]]; (state, accepted) -/
+def argDefineOwn (s : ArgState SProp) (n : Name) (d : PD) : ArgState SProp × Bool :=
+  match argMapped s n, argIndex n with
+  | some mv, some i =>
+    -- ES2015 9.4.4.2 step 4: a data descriptor that unmaps without a value takes the mapped value
+    let d1 : PD := if !isAccessorDescriptor d && d.value.isNone && d.writable == some false then { d with value := some mv } else d
+    match defineOwn s.o n d1 with                                     -- step 3
+    | none => (s, false)                                              -- step 4
+    | some o' =>
+      let s1 := { s with o := o' }
+      if isAccessorDescriptor d then ({ s1 with map := s1.map.set i false }, true)      -- 5.a
+      else
+        let s2 := match d1.value with | some v => { s1 with env := s1.env.set i v } | none => s1   -- 5.b.i
+        if d.writable == some false then ({ s2 with map := s2.map.set i false }, true)  -- 5.b.ii
+        else (s2, true)
+  | _, _ =>
+    match defineOwn s.o n d with
+    | none => (s, false)
+    | some o' => ({ s with o := o' }, true)
+
+/-- §10.6 [[Delete]] (Throw = false) -/
+def argDelete (s : ArgState SProp) (n : Name) : ArgState SProp × Bool :=
+  match alookup n s.o.props with
+  | none => (s, true)
+  | some p =>
+    if p.configurable then
+      let s1 := { s with o := { s.o with props := aerase n s.o.props } }
+      match argMapped s n, argIndex n with
+      | some _, some i => ({ s1 with map := s1.map.set i false }, true)
+      | _, _ => (s1, true)
+    else (s, false)
+
+/-- §8.12.5 [[Put]] on the arguments object (Throw = false; nothing relevant inherited) -/
+def argPut (s : ArgState SProp) (n : Name) (v : Val) : ArgState SProp × List Call :=
+  match argGetOwn s n with
+  | some (.data _ w _ _) => if w then ((argDefineOwn s n { noPD with value := some v }).1, []) else (s, [])
+  | some (.acc _ (some k) _ _) => (s, [(k, 0, v)])
+  | some (.acc _ none _ _) => (s, [])
+  | none =>
+    if s.o.ext then ((argDefineOwn s n { noPD with value := some v, writable := some true, enumerable := some true, configurable := some true }).1, [])
+    else (s, [])
+
+/-- §15.2.3.9 on the arguments object -/
+def argFreezeLoop (s : ArgState SProp) : List Name → ArgState SProp × Bool
+  | [] => (s, false)
+  | n :: ns =>
+    match argGetOwn s n with
+    | none => argFreezeLoop s ns
+    | some p =>
+      let d := ofProp p
+      let d := if isDataDescriptor d && d.writable == some true then { d with writable := some false } else d
+      let d := if d.configurable == some true then { d with configurable := some false } else d
+      match argDefineOwn s n d with
+      | (_, false) => (s, true)
+      | (s', true) => argFreezeLoop s' ns
+
+/-- §15.2.3.8 on the arguments object -/
+def argSealLoop (s : ArgState SProp) : List Name → ArgState SProp × Bool
+  | [] => (s, false)
+  | n :: ns =>
+    match argGetOwn s n with
+    | none => argSealLoop s ns
+    | some p =>
+      let d := ofProp p
+      let d := if p.configurable then { d with configurable := some false } else d
+      match argDefineOwn s n d with
+      | (_, false) => (s, true)
+      | (s', true) => argSealLoop s' ns
+
+def argStep (s : ArgState SProp) : AOp → ArgState SProp × Outcome × List Call
+  | .param i v => ({ s with env := s.env.set i v }, .ok, [])
+  | .put n v => let r := argPut s n v; (r.1, .ok, r.2)
+  | .del n => let r := argDelete s n; (r.1, .bool r.2, [])
+  | .defn n d =>
+    match toPropertyDescriptor d with
+    | none => (s, .typeError, [])
+    | some desc =>
+      match argDefineOwn s n desc with
+      | (_, false) => (s, .typeError, [])
+      | (s', true) => (s', .ok, [])
+  | .freeze =>
+    match argFreezeLoop s (akeys s.o.props) with
+    | (s', true) => (s', .typeError, [])
+    | (s', false) => ({ s' with o := { s'.o with ext := false } }, .ok, [])
+  | .seal =>
+    match argSealLoop s (akeys s.o.props) with
+    | (s', true) => (s', .typeError, [])
+    | (s', false) => ({ s' with o := { s'.o with ext := false } }, .ok, [])
+  | .preventExt => ({ s with o := { s.o with ext := false } }, .ok, [])
+
+def argObserveName (s : ArgState SProp) (n : Name) : NameObs :=
+  { get := argGet s n
+    has := (alookup n s.o.props).isSome
+    own := (alookup n s.o.props).isSome
+    enum := match alookup n s.o.props with | some p => p.enumerable | none => false
+    desc := match argGetOwn s n with | some p => fromPropertyDescriptor p | none => .none }
+
+def argObserve (s : ArgState SProp) (out : Outcome) : AObs :=
+  { out := out
+    env := s.env
+    ext := s.o.ext
+    isSealed := s.o.props.all (fun kp => !kp.2.configurable) && !s.o.ext
+    isFrozen := s.o.props.all (fun kp => match kp.2 with
+        | .data _ w _ c => !w && !c
+        | .acc _ _ _ c => !c) && !s.o.ext
+    names := ownKeys s.o true
+    per := argNames.map (argObserveName s) }
+
+def argRun (s : ArgState SProp) : List AOp → List (AObs × List Call)
+  | [] => []
+  | op :: ops =>
+    let r := argStep s op
+    (argObserve r.1 r.2.1, r.2.2) :: argRun r.1 ops
+
+/-! ### global bindings, ES5 §10.5 Declaration Binding Instantiation on the global environment
+    (§10.2.1.2 object environment record over the global object), §8.7.2 PutValue, §11.4.1 delete -/
+
+def gHas (g : SObj) : Bool := (alookup 0 g.props).isSome          -- HasBinding = [[HasProperty]]
+
+/-- §10.2.1.2.2 CreateMutableBinding(N, D): [[DefineOwnProperty]] {undefined, w, e, c = D} -/
+def gCreate (g : SObj) (configurable : Bool) : SObj :=
+  (defineOwn g 0 { noPD with value := some 0, writable := some true, enumerable := some true, configurable := some configurable }).getD g
+
+/-- §10.2.1.2.3 SetMutableBinding = [[Put]](N, V, S) with S = false -/
+def gSet (g : SObj) (v : Val) : SObj × List Call :=
+  let r := put [g] 0 0 v false
+  (r.1.headD g, r.2.2)
+
+def gStep (g : SObj) : GOp → SObj × Outcome × List Call
+  | .assign v => let r := gSet g v; (r.1, .ok, r.2)                 -- §8.7.2 step 3.b / 5 (both are [[Put]] on the global object)
+  | .varDecl eval => if !gHas g then (gCreate g eval, .ok, []) else (g, .ok, [])      -- §10.5 step 8
+  | .varInit v =>
+    let g1 := if !gHas g then gCreate g false else g
+    let r := gSet g1 v
+    (r.1, .ok, r.2)
+  | .funDecl eval =>                                                -- §10.5 step 5
+    match alookup 0 g.props with
+    | none => let r := gSet (gCreate g eval) fnVal; (r.1, .ok, r.2)                 -- 5.d, 5.f
+    | some existing =>
+      if existing.configurable then                                                 -- 5.e.iii
+        match defineOwn g 0 { noPD with value := some 0, writable := some true, enumerable := some true, configurable := some eval } with
+        | none => (g, .typeError, [])
+        | some g1 => let r := gSet g1 fnVal; (r.1, .ok, r.2)
+      else
+        match existing with                                                          -- 5.e.iv
+        | .data _ true true _ => let r := gSet g fnVal; (r.1, .ok, r.2)
+        | _ => (g, .typeError, [])
+  | .del =>
+    let r := delete [g] 0 0 false
+    (r.1.headD g, r.2.1, [])
+  | .defn d =>
+    let r := step [g] (.defn 0 0 d)
+    (r.1.headD g, r.2.1, [])
+
+def gObserve (g : SObj) : NameObs := observeName [g] 0 g 0
+
+def gRun (g : SObj) : List GOp → List (Outcome × List Call × NameObs)
+  | [] => []
+  | op :: ops =>
+    let r := gStep g op
+    (r.2.1, r.2.2, gObserve r.1) :: gRun r.1 ops
+
 end OttoVerif.C07.Spec
